@@ -28,7 +28,8 @@ EXTENDS Integers, Sequences, FiniteSets, TLC
 CONSTANTS MaxFrames,       \* size of the frame table
           Dev_PruneWithoutReap,        \* D4: manage_processes drops dead workers without reaping them
           Dev_AfterSpawnKillDetached,  \* D3: after_spawn false: kill not awaited, pid dropped at once
-          Dev_BuiltinIgnoreList        \* D11: before_signal/after_signal/..stop raise counts as true
+          Dev_BuiltinIgnoreList,       \* D11: before_signal/after_signal/..stop raise counts as true
+          Dev_AddEmptyNameReturns      \* D9: add_watcher returns (not raises) ValueError for an empty name
 
 SIGKILL == 9
 SIGTERM == 15
@@ -373,14 +374,19 @@ P_manage_processes(s, f) ==
          ELSE LET p == Head(fr.l) st == KStatus(s, p) s1 == SetL(s, f, Tail(fr.l)) IN
               Emit(IF st = "run" THEN SetM(s1, f, Append(fr.m, p)) ELSE Goto(SetC(s1, f, p), f, "5p"),
                    Line("status", "", p, 0, st, ""))
-    [] fr.pc = "5p" -> Goto(PrPop(s, i, fr.c), f, "5")
+    [] fr.pc = "5p" -> IF Dev_PruneWithoutReap THEN Goto(PrPop(s, i, fr.c), f, "5")
+                       ELSE Call(s, f, "5q", "reap_process", i, fr.c, -1, 0)
+    [] fr.pc = "5q" -> Goto(DropKids(s, f), f, "5")
     [] fr.pc = "6" -> IF fr.m = <<>> THEN Await(s, f, "7")
                       ELSE Call(SetM(s, f, Tail(fr.m)), f, "6", "kill_process", i, Head(fr.m), wr.ssig, wr.G)
     [] fr.pc = "7" ->
          LET rets == KidRets(s, f)
              gone == { fr.l[j] : j \in { j \in 1..Len(fr.l) : rets[j] = 1 } }
              s1 == [s EXCEPT !.ws[i].pr = SelectSeq(@, LAMBDA e : e.p \notin gone)]
-         IN Ret(DropKids(s1, f), f, 1)
+         IN IF Dev_PruneWithoutReap THEN Ret(DropKids(s1, f), f, 1)      \* D4: popped, never reaped
+            ELSE Goto(SetM(DropKids(s, f), f, SelectSeq(fr.l, LAMBDA p : p \in gone)), f, "8")
+    [] fr.pc = "8" -> IF fr.m = <<>> THEN Ret(DropKids(s, f), f, 1)
+                      ELSE Call(SetM(DropKids(s, f), f, Tail(fr.m)), f, "8", "reap_process", i, Head(fr.m), -1, 0)
 
 \* ---- Watcher.spawn_process()      returns 1 (started / True) or 0 (False: the watcher must be stopped)
 P_spawn_process(s, f, ob) ==
@@ -746,8 +752,9 @@ P_req(s, f) ==
          ELSE IF ByName(s, q.lname) # {} THEN Reply(GotoZ(s, f, 0), cid, q.mid, "error", 5)      \* AlreadyExist
          ELSE IF q.name = ""
          THEN \* D9: `return ValueError(...)` instead of raise: nothing is added ...
-              IF q.start THEN Reply(GotoZ(s, f, 0), cid, q.mid, "error", 5)      \* ... and .start() on it fails
-              ELSE Reply(GotoZ(s, f, 1), cid, q.mid, "ok", 0)                     \* ... but the reply says ok
+              IF q.start \/ ~Dev_AddEmptyNameReturns
+              THEN Reply(GotoZ(s, f, 0), cid, q.mid, "error", 5)      \* ... and .start() on it fails / it is raised
+              ELSE Reply(GotoZ(s, f, 1), cid, q.mid, "ok", 0)          \* ... but the reply says ok
          ELSE IF q.addsing /\ q.addnp > 1 THEN Reply(GotoZ(s, f, 0), cid, q.mid, "error", 5)
          ELSE LET n == NW(s) + 1
                   wc == [n |-> q.name, ln |-> q.lname, np |-> q.addnp, G |-> q.addG, W |-> q.addW, sing |-> q.addsing,
